@@ -84,6 +84,7 @@ MODEL_NOTES = {
     "C07": "In addition TLC enumerates all ordered pairs of a universe of small polynomials under the four settings (MC_Order), checks trichotomy, antisymmetry, transitivity against every third polynomial, equality only for identical polynomials and numeric order of constants on the specification, and replays every pair on the six operators, maximum/minimum, comparisons with plain numbers and the lead queries (half of the replays store both operands over the name tuple (q1, q0)).  Pairs of monomials in three indeterminates are part of the model and always replayed, and the examples of the user guide's section on comparison operators are ASSUMEs evaluated by TLC: the specification's order is the documented one.",
     "C09": "In addition TLC enumerates the index-expression grammar (integers, slices, newaxis, ellipsis, integer lists incl. several lists separated by slices) and all axis permutations for small shapes (MC_Shape), checks that the specification's gather maps are total, and every expression is replayed; joins are enumerated as (function, number of operands, axis, relation of the operands' names and terms: same / same layout under other names / other terms / plain numbers).",
     "C10": "In addition TLC enumerates every (function, shape, axis choice, keepdims) with axes as None, single, negative and ordered tuples in every order (MC_Reduce), checks fold laws on an array of distinct symbolic elements, and every vector is replayed through all spellings.  A second model (MC_LinAlg) enumerates every zero pattern of 1x1, 2x2 and 3x3 matrices (and stacks), every matmul shape combination incl. stacked and broadcast batches, inner / outer of vectors and diff / ediff1d for every shape, axis, order and prepend / append choice; TLC checks that the specification's determinant is multilinear, alternating, transposition-invariant, zero with a zero row, the diagonal product when triangular and multiplicative on 2x2, that matmul is associative with identity, inner = trace of outer, and that diff telescopes; every vector is replayed.",
+    "C11": "In addition the vectors of the reduction model (MC_Reduce: every shape x axis choice as none / single / negative / ordered tuples x keepdims) are replayed on constant polynomials through sum, prod, mean, cumsum, amax / amin / max / min, argmax / argmin, any / all and count_nonzero in the numpoly, numpy and method spellings, against numpy on the raw arrays.",
     "C12": "In addition TLC enumerates all 196 ordered dtype pairs (MC_DType), checks commutativity / idempotence / absorption of the promotion rules and idempotence of casts (it refuted associativity, which numpy's own table does not have either), and every pair is replayed: model-vs-numpy binding events, dtype= construction, astype, +, -, *, and x - x.",
     "C16": "In addition TLC enumerates all ordered pairs of a universe of small polynomials printed as a two-element array under every display order and both retain_names settings (MC_Text), checks that the display order totally orders each element's monomials, and every pair is replayed on str/repr.",
     "C18": "In addition TLC enumerates every key matrix of a small universe and every (start, stop, norm, flags) vector (MC_Sort), checks that the order is a strict total order and basic laws of the index sets, and every vector is replayed on glexsort / glexindex / bindex / monomial.",
